@@ -119,6 +119,9 @@ def corpus():
         # P12: huge stated line numbers
         {"mf": F([1, 2]), "patches": [P([h((1 << 61), 0, 0, 0, [2], [3])])]},
         {"mf": F([1, 2, 1, 2]), "patches": [P([h((1 << 61), 0, 0, 0, [2], [3]), h(3, 3, 0, 0, [2], [4])])]},
+        # seeded C11-f: an offset carried to a hunk that states (almost) the largest line number
+        {"mf": F([1, 2, 3]), "patches": [P([h(0, 0, 0, 0, [2], [9]), h((1 << 63) - 2, (1 << 63) - 2, 0, 0, [7], [8])])]},
+        {"mf": F([1, 2, 3]), "patches": [P([h(0, 0, 0, 0, [3], [9]), h((1 << 63) - 2, (1 << 63) - 1, 0, 0, [], [8])])]},
         # seeded C03-a: suffix fuzz and frozen line
         {"mf": F([1, 2, 3, 4, 5, 6, 7, 8]), "patches": [P([h(1, 1, 1, 2, [2, 3, 4, 9], [2, 30, 4, 9]), h(2, 2, 0, 0, [3, 4], [31, 41])], 0, 0, 2)]},
         # seeded C02-a: match only in the last slot, expected line beyond the file
